@@ -559,6 +559,23 @@ class Interp:
         if isinstance(e, (ast.ListComp, ast.GeneratorExp)) and len(e.generators) == 1 and not e.generators[0].ifs:
             g = e.generators[0]
             it = self.ev(g.iter, env)
+            if isinstance(it, SymRange) and isinstance(g.target, ast.Name):
+                # [f(i) for i in range(n)] with symbolic n: the list of f(i), i a fresh universally quantified position (same reading as map_loop)
+                from . import bilinear
+
+                n = it.n
+                i = sym.world().fresh_digit("i", n)
+                env2 = dict(env)
+                env2[g.target.id] = i
+                elem = self.ev(e.elt, env2)
+                if not isinstance(elem, SymArray):
+                    raise Unsupported("comprehension over a symbolic range yields a non-array")
+
+                def at(j, elem=elem, i=i):
+                    jv = j.value() if isinstance(j, Num) else sp.sympify(j)
+                    return elem if jv == i else bilinear.subst_array(elem, {i: jv})
+
+                return SymList(n, at, "arrays")
             if isinstance(it, (SymRange, SymArray, SymList)):
                 raise Unsupported("comprehension over a symbolic domain")
             out = []
@@ -741,7 +758,7 @@ class Interp:
             out = np.empty(args[0] if not isinstance(args[0], sp.Integer) else int(args[0]), dtype=object)
             out.fill(0)
             return out
-        if q == "np.vstack" and isinstance(args[0], (list, tuple)) and args[0] and all(isinstance(a, SymArray) for a in args[0]):
+        if q in ("np.vstack", "np.stack") and isinstance(args[0], (list, tuple)) and args[0] and all(isinstance(a, SymArray) and a.ndim == 1 for a in args[0]) and (q == "np.vstack" or kw.get("axis", args[1] if len(args) > 1 else 0) == 0):
             from . import bilinear
 
             return bilinear.stack_rows(list(args[0]))
